@@ -81,11 +81,13 @@ enum WitnessResult {
     CrateDecoderRejects,
 }
 
-fn find_witness(data: &[u8], caps: &[usize], modes: u8) -> WitnessResult {
+/// `data` is the complete message, `body` what the mode encoders see (macro envelope removed) and
+/// `prefix` the header codewords (macro / FNC1) in front of it
+fn find_witness(data: &[u8], body: &[u8], prefix: &[u8], caps: &[usize], modes: u8) -> WitnessResult {
     let mut crate_rejects = false;
     for cap in caps {
-        let Some((len, script)) = min_len(data, *cap, 0, modes) else { continue };
-        let stream = run_script(data, &script, &[], *cap);
+        let Some((len, script)) = min_len(body, *cap, prefix.len(), modes) else { continue };
+        let stream = run_script(body, &script, prefix, *cap);
         let d = match ref_decode(&stream) {
             Ok(d) => d,
             Err(e) => return WitnessResult::EngineBug(format!("R1 rejects R2's witness: {} (script {:?})", e.0, script)),
@@ -97,7 +99,7 @@ fn find_witness(data: &[u8], caps: &[usize], modes: u8) -> WitnessResult {
         if d.latches.iter().any(|l| modes & l.bit() == 0) {
             return WitnessResult::EngineBug("witness latches into a disabled mode".into());
         }
-        if modes & 1 == 0 && !d.ascii_char_positions().is_empty() {
+        if modes & 1 == 0 && !d.ascii_char_positions().is_empty() && prefix.is_empty() {
             return WitnessResult::EngineBug("witness uses ASCII characters although ASCII is disabled".into());
         }
         match guard(|| datamatrix::data::decode_data(&stream)) {
@@ -158,26 +160,26 @@ fn witness_paths(script: &[Step], n: usize) -> Vec<Vec<(usize, EncodationType)>>
 }
 
 /// the planner's own price (whole codewords) of the witness, by hook H3
-fn planner_price_of_witness(c: &EncCase, script: &[Step]) -> Option<usize> {
+fn planner_price_of_witness(c: &EncCase, body: &[u8], pre: usize, script: &[Step]) -> Option<usize> {
     let list = mask_to_list(c.list);
-    witness_paths(script, c.data.len())
+    witness_paths(script, body.len())
         .iter()
-        .filter_map(|p| guard(|| datamatrix::verif::price_path(&c.data, &list, p)).ok().flatten())
+        .filter_map(|p| guard(|| datamatrix::verif::price_path_after(body, pre, &list, p)).ok().flatten())
         .min()
 }
 
 /// plain ASCII / plain Base256 bounds (claim 1): smallest listed capacity that holds them
-fn plain_bound(data: &[u8], caps: &[usize], modes: u8) -> Option<(usize, &'static str)> {
+fn plain_bound(data: &[u8], pre: usize, caps: &[usize], modes: u8) -> Option<(usize, &'static str)> {
     let mut best: Option<(usize, &'static str)> = None;
     if modes & 1 != 0 {
-        let l = ascii_greedy(data);
+        let l = pre + ascii_greedy(data);
         if let Some(c) = caps.iter().find(|c| **c >= l) {
             best = Some((*c, "plain ASCII"));
         }
     }
     if modes & 32 != 0 && !data.is_empty() && data.len() <= 1555 {
         let n = data.len();
-        let c = caps.iter().find(|c| (**c == n + 2) || (**c >= n + if n < 250 { 2 } else { 3 }));
+        let c = caps.iter().find(|c| (**c == pre + n + 2) || (**c >= pre + n + if n < 250 { 2 } else { 3 }));
         if let Some(c) = c {
             if best.map_or(true, |b| *c < b.0) {
                 best = Some((*c, "plain Base256"));
@@ -188,9 +190,12 @@ fn plain_bound(data: &[u8], caps: &[usize], modes: u8) -> Option<(usize, &'stati
 }
 
 pub fn check_with(c: &EncCase, strict: Strictness, ctx: &Ctx) -> Verdict {
-    if c.list == 0 || c.modes == 0 || c.macros || c.fnc1 || c.eci.is_some() {
+    if c.list == 0 || c.modes == 0 || c.eci.is_some() {
         return Verdict::Pass(Pass::new("out-of-domain", false));
     }
+    // header codewords (macro / FNC1) are a constant offset for the reference search
+    let (prefix, body) = c.expected_prefix();
+    let pre = prefix.len();
     let caps = caps_of(c.list);
     datamatrix::verif::reset_plan_stats();
     let enc = guard(|| c.encode());
@@ -203,8 +208,8 @@ pub fn check_with(c: &EncCase, strict: Strictness, ctx: &Ctx) -> Verdict {
     // candidates: listed capacities smaller than the one the crate used (all if it refused)
     let candidates: Vec<usize> = caps.iter().copied().filter(|x| crate_cap.map_or(true, |cc| *x < cc)).collect();
     let desc = || format!("input {:?} ({} bytes), modes {}, list {}", show(&c.data), c.data.len(), mode_names(c.modes), mask_names(c.list));
-    let bound = plain_bound(&c.data, &caps, c.modes);
-    let witness = find_witness(&c.data, &candidates, c.modes);
+    let bound = plain_bound(body, pre, &caps, c.modes);
+    let witness = find_witness(&c.data, body, &prefix, &candidates, c.modes);
     let better = match witness {
         WitnessResult::EngineBug(e) => return Verdict::EngineBug(e),
         WitnessResult::Found(w) => Some(w),
@@ -216,7 +221,8 @@ pub fn check_with(c: &EncCase, strict: Strictness, ctx: &Ctx) -> Verdict {
     if let Some(w) = better {
         // the crate is worse than a verified standard-conformant encoding
         // what does the planner's own cost model say about the witness? (hook H3)
-        let priced = planner_price_of_witness(c, &w.script);
+        let priced = planner_price_of_witness(c, body, pre, &w.script);
+        let priced = priced.map(|p| p + pre);
         let priced_fits = priced.map_or(false, |p| p <= w.cap);
         bump(match priced {
             None => "witness_unpriceable_by_planner",
@@ -314,7 +320,7 @@ pub fn check_with(c: &EncCase, strict: Strictness, ctx: &Ctx) -> Verdict {
     // classification
     let (nontrivial, cls) = match (crate_cap, &dm) {
         (Some(cc), Some(dm)) => {
-            let own = min_len(&c.data, cc, 0, c.modes);
+            let own = min_len(body, cc, pre, c.modes);
             let uses_non_ascii = own.as_ref().map_or(false, |(_, s)| script_modes(s).iter().any(|m| *m != Mode::Ascii));
             let unpadded = ref_decode(dm.data_codewords()).map(|d| d.unpadded_len()).unwrap_or(cc);
             let near = caps.iter().any(|x| *x >= unpadded && *x - unpadded <= 2);
@@ -479,6 +485,9 @@ fn run_stages(ctx: &Arc<Ctx>) {
     // (b) seeded exploration
     let o = EncGenOpts { long_weight: 0, macro_weight: 0, allow_fnc1: false, allow_macros_flag: false, short_only: true, ..Default::default() };
     ctx.run_generated("explore", "enc-explore", ctx.cases(200_000, 3_000_000), || g_enc_case(o).prop_map(|mut c| { c.macros = false; c }), |c| check_with(c, Strictness::Explore, ctx));
+    // (c) the same with header codewords in front: macro envelopes (compacted and look-alikes), FNC1 start
+    let o = EncGenOpts { long_weight: 0, macro_weight: 6, allow_fnc1: true, allow_macros_flag: true, short_only: true, ..Default::default() };
+    ctx.run_generated("explore-headers", "enc-explore", ctx.cases(60_000, 1_000_000), || g_enc_case(o), |c| check_with(c, Strictness::Explore, ctx));
 }
 
 fn replay(ctx: &Ctx, kind: &str, case: &Value) -> Option<Verdict> {
